@@ -112,9 +112,29 @@ def hc(window, flavour):
     return False
 
 
+def hq(window):
+    """Short-lived object at a contested path: one side's user creates a file at P and deletes it again within the
+    window while the other side's user also operates on P (the new object gets linked to the other side's object and
+    its deletion is then propagated to it)."""
+    for side in (0, 1):
+        created = set()
+        for op in window:
+            if op["side"] != side:
+                continue
+            if op["op"] == "create":
+                created.add(op["path"])
+            elif op["op"] == "delete" and op["path"] in created:
+                p = op["path"]
+                if any(o["side"] != side and p in _paths(o) for o in window):
+                    return True
+    return False
+
+
 def any_hazard(sched, flavour=None):
     hs = set()
     for w in windows(sched):
+        if hq(w):
+            hs.add("HQ")
         if flavour is not None and hc(w, flavour):
             hs.add("HC")
         if hd(w):
